@@ -33,6 +33,8 @@ Abstractions (each stated where it is made):
 * strings are `List Char` (UTF-8 byte order = code-point order);
 * a float is a dyadic rational `m · 2^-e` (every finite `f64` is one) plus its display text;
   `i64 as f64` is taken to be exact (literals within ±2^53);
+* `ZoneHydrator` loads column values only into candidate zones that carry a uid as soon as one
+  candidate does (`CandidateZone::uid`, set by the metadata enumeration, not by the pruners);
 * the leaf pruners (SuRF, zone XOR, field XOR, enum bitmap, calendar + per-zone temporal index)
   are an abstract function `Raw` — what `RangePruner::apply_surf_only`,
   `XorPruner::apply_zone_index_only` / `apply_presence_only`, `EnumPruner::apply`,
@@ -246,11 +248,34 @@ def Lit.inText : Lit → Str
   | .int i => intText i
   | .flt _ d => d
 
+/-- The loop over the `IN` values: every value numeric, else give up at the first that is not. -/
+def numerics : List Lit → Option (List Int)
+  | [] => some []
+  | l :: ls =>
+    match l.numeric, numerics ls with
+    | some n, some ns => some (n :: ns)
+    | _, _ => none
+
 /-- All values numeric (and at least one) → numeric set, else string set. -/
 def inCond (vs : List Lit) : LC :=
-  match vs.mapM Lit.numeric with
+  match numerics vs with
   | some ns => if ns.isEmpty then .inStr (vs.map Lit.inText) else .inNum ns
   | none => .inStr (vs.map Lit.inText)
+
+/-- Leaves of an expression as the planner sees them (`IN` values are `=` leaves). -/
+def Expr.leaves : Expr → List (Nat × Op × Lit)
+  | .cmp f op l => [(f, op, l)]
+  | .inn f vs => vs.map fun l => (f, .eq, l)
+  | .and a b => a.leaves ++ b.leaves
+  | .or a b => a.leaves ++ b.leaves
+  | .not a => a.leaves
+
+def Expr.notFree : Expr → Bool
+  | .cmp .. => true
+  | .inn .. => true
+  | .and a b => a.notFree && b.notFree
+  | .or a b => a.notFree && b.notFree
+  | .not _ => false
 
 /-! ## stage 2a: row evaluation on a memtable event (`evaluate_event_direct`) -/
 
@@ -573,11 +598,11 @@ def candU (sel : Nat → Op → Lit → List Nat) (uid : Nat → Op → Lit → 
 structure Zone where
   id : Nat
   rows : List Row
-  deriving Repr
+  deriving Repr, DecidableEq
 
 structure Seg where
   zones : List Zone
-  deriving Repr
+  deriving Repr, DecidableEq
 
 /-- Everything a query sees. `raw j f op l` is the pruners' answer for leaf `(f, op, l)` on
 segment number `j`. `forCtx`: the `FOR` clause. -/
